@@ -86,7 +86,7 @@ def scripts0(dims, V, rng, quick):
     return out
 
 def shapes(V, which):
-    return {"a1": (max(9, 2 * V + 1),), "a2": (4, V + 3), "a3": (2, 3, 2 * V)}[which]
+    return {"a1": (max(9, 2 * V + 1),), "a2": (4, 2 * V + 1), "a3": (2, 3, 2 * V)}[which]
 
 def sym_groups(tier, seed):
     rng = random.Random(seed * 104729 + 11)
@@ -151,8 +151,8 @@ def real_groups(tier, seed):
             for (t, sz) in c05.REAL_TYPES:
                 ci += 1
                 V = G.vwidth(isa, sz)
-                for which in ([("a1", "a2", "a3")[(ci + seed) % 3]] if quick else ["a1", "a2", "a3"]):
-                    for vea in ([(ci + seed) % 2] if quick else [0, 1]):
+                for wi, which in enumerate([("a1", "a2", "a3")[(ci + seed) % 3]] if quick else ["a1", "a2", "a3"]):
+                    for vea in ([(ci + seed) % 2] if quick else [(ci + wi) % 2]):
                         dims = shapes(V, which)
                         r2 = random.Random(rng.random())
                         sc = []
@@ -171,8 +171,9 @@ def real_groups(tier, seed):
                 # a fixed view with the flag on real types: every other cell
                 if not quick or (ci + seed) % 2 == 0:
                     fam = [("g1", (2 * V + 3,), [(1, V + 2, 1)], 0), ("g2", (4, V + 3), [(1, 4, 2), (1, V + 2, 1)], 1),
-                           ("g1s", (2 * V + 5,), [(0, -1, 2)], 1), ("g2s", (3, 2 * V + 1), [(0, -1, 1), (0, -1, 2)], 0)]
-                    for (name, dims, fseqs, vea) in ([fam[(ci // 2 + seed) % 4]] if quick else fam):
+                           ("g1s", (2 * V + 5,), [(0, -1, 2)], 1), ("g2s", (3, 2 * V + 1), [(0, -1, 1), (0, -1, 2)], 0),
+                           ("g3", (2, 3, 2 * V), [(0, 1, 1), (1, 3, 1), (0, V, 1)], 0), ("g3s", (2, 3, V + 2), [(0, -1, 1), (0, -1, 2), (1, -1, 1)], 0)]
+                    for (name, dims, fseqs, vea) in ([fam[(ci // 2 + seed) % 6]] if quick else [fam[ci % 6], fam[(ci + 2) % 6], fam[(ci + 4) % 6]]):
                         r2 = random.Random(rng.random())
                         sc = []
                         for k in range(40 if quick else 300):
